@@ -39,6 +39,7 @@ type StreamDecoder struct {
 	scanp   int
 	scanned int64
 	err     error
+	rerr    error // a reader error that came together with data, not reported yet
 	Decoder
 }
 
@@ -220,7 +221,7 @@ func (self *StreamDecoder) readMore() bool {
 		l := len(self.buf)
 		realloc(&self.buf)
 
-		n, err = self.r.Read(self.buf[l:cap(self.buf)])
+		n, err = self.read(self.buf[l:cap(self.buf)])
 		self.buf = self.buf[:l+n]
 
 		self.scanp = l
@@ -287,10 +288,24 @@ func (self *StreamDecoder) refill() error {
 	realloc(&self.buf)
 
 	// Read. Delay error for next iteration (after scan).
-	n, err := self.r.Read(self.buf[len(self.buf):cap(self.buf)])
+	n, err := self.read(self.buf[len(self.buf):cap(self.buf)])
 	self.buf = self.buf[0 : len(self.buf)+n]
 
 	return err
+}
+
+// read reads from the underlying reader. A reader may return its error together
+// with the last data and never again: the error is kept and returned (without
+// reading) as soon as that data has been used up.
+func (self *StreamDecoder) read(p []byte) (int, error) {
+	if self.rerr != nil {
+		return 0, self.rerr
+	}
+	n, err := self.r.Read(p)
+	if err != nil && n > 0 {
+		self.rerr = err
+	}
+	return n, err
 }
 
 func realloc(buf *[]byte) bool {
